@@ -571,3 +571,61 @@ func localTableFieldValues(v ssa.Value) []ssa.Value {
 	}
 	return out
 }
+
+// certFirstBlockRule (C15.args, last clause): the certificate the verifier uses is parsed from the FIRST PEM block of
+// the stored certificate text: in the function that parses it, every alternative of the block handed to
+// x509.ParseCertificate is result #0 of pem.Decode applied to the function's own parameter (not to the "rest" of an
+// earlier Decode, not the last block a loop found): a stored text with more than one block (a chain) must not be
+// verified under another certificate than its first.
+func certFirstBlockRule(w *World, r *Report, rule string) {
+	fn := w.Func("x/cfesignature/util.GetUserCertificateFromString")
+	if fn == nil {
+		r.Unk("infra.anchor", "x/cfesignature/util.GetUserCertificateFromString", "", "anchor not found")
+		return
+	}
+	cg := w.CG()
+	n := 0
+	all := ReachUnder(fn, func(ssa.Value) (bool, bool) { return false, false })
+	for _, e := range w.effectsBelow(fn, func(s *Site) bool { return strings.HasSuffix(s.CalleeName(), "x509.ParseCertificate") }, 2) {
+		_ = cg
+		if len(e.Chain) > 0 {
+			continue // parsed below a helper: not decided here
+		}
+		a := e.Site.Common().Args
+		if len(a) == 0 {
+			continue
+		}
+		// block.Bytes: load of field Bytes of the block pointer
+		var blk ssa.Value
+		if u, ok := a[0].(*ssa.UnOp); ok && u.Op == token.MUL {
+			if fa, ok := u.X.(*ssa.FieldAddr); ok {
+				blk = fa.X
+			}
+		}
+		if blk == nil {
+			continue
+		}
+		n++
+		ok := true
+		alts := all.LiveValues(blk)
+		for _, alt := range alts {
+			ex, isEx := alt.(*ssa.Extract)
+			if !isEx || ex.Index != 0 {
+				ok = false
+				continue
+			}
+			c, isC := ex.Tuple.(*ssa.Call)
+			if !isC || !strings.HasSuffix(callName(c.Common()), "encoding/pem.Decode") || len(c.Common().Args) != 1 {
+				ok = false
+				continue
+			}
+			if _, isP := normLocal(c.Common().Args[0]).(*ssa.Parameter); !isP {
+				ok = false
+			}
+		}
+		r.Check(ok && len(alts) > 0, rule, "the certificate is parsed from the first PEM block of the stored text", w.Pos(e.Site.Instr.Pos()), fmt.Sprintf("%d alternative(s), each result #0 of pem.Decode(parameter)", len(alts)), "the block handed to ParseCertificate is not (always) the first PEM block of the stored certificate: a stored text with several blocks is verified under another certificate than its first")
+	}
+	if n == 0 {
+		r.Enum(rule, "the certificate is parsed from the first PEM block of the stored text (not decided: the parse is not in the parsing function itself)", w.Pos(fn.Pos()), "shape not recognised")
+	}
+}
